@@ -178,7 +178,7 @@ def impl_trees(bs, t1, t2, d):
     return rb, rc
 
 
-def restest_run(orig, tampered, repaired, deleted, d):
+def restest_run(orig, tampered, repaired, deleted, d, parallel=False, nrepairs=1):
     """scripted `pff restest`: tamper step writes `tampered`, repair step writes `repaired` into the
     output dir and `deleted` are removed from the tampered dir first (so that copy_any cannot restore them).
     Returns (exit status or 'exception:..', final tree as dict)"""
@@ -191,18 +191,23 @@ def restest_run(orig, tampered, repaired, deleted, d):
     json.dump({"files": {k: v.hex() for k, v in tampered.items()}, "delete": deleted}, open(s1, "w"))
     json.dump({"files": {k: v.hex() for k, v in repaired.items()}}, open(s2, "w"))
     cfg = os.path.join(d, "cfg.txt")
+    # one or two repair stages (the LAST one writes `repaired`; an earlier one leaves what it was given), chained or --parallel: the
+    # final error and the exit status are those of the last stage's output
+    s0 = os.path.join(d, "norepair.json")
+    json.dump({"files": {}}, open(s0, "w"))
+    rep_cmds = "".join("    python pffverif_c20_step.py \"{outputdir}\" \"%s\"\n" % (s2 if j == nrepairs - 1 else s0) for j in range(nrepairs))
     open(cfg, "w").write(
         "before_tamper:\n\n"
         "tamper:\n    python pffverif_c20_step.py \"{inputdir}\" \"%s\"\n\n"
         "after_tamper:\n\n"
-        "repair:\n    python pffverif_c20_step.py \"{outputdir}\" \"%s\"\n" % (s1, s2))
+        "repair:\n%s" % (s1, rep_cmds))
     try:
-        rc = m.main(["-i", din, "-o", dout, "-c", cfg, "-f", "--silent"])
+        rc = m.main(["-i", din, "-o", dout, "-c", cfg, "-f", "--silent"] + (["--parallel"] if parallel else []))
         rc = str(int(rc))
     except Exception as e:
         rc = "exception:%s" % type(e).__name__
     final = {}
-    fdir = os.path.join(dout, "run1", "repair0")
+    fdir = os.path.join(dout, "run1", "repair%d" % (nrepairs - 1))
     for root, _ds, fs in os.walk(fdir):
         for f in fs:
             p = os.path.join(root, f)
@@ -214,7 +219,7 @@ def run(oc, tier, seed, model_available, escalate):
     rng = random.Random(seed * 104729 + 20)
     npairs = 1500 if tier == "quick" else 20000
     ntrees = 150 if tier == "quick" else 1500
-    nrest = 12 if tier == "quick" else 120
+    nrest = 40 if tier == "quick" else 300
     if escalate:
         npairs *= 3
         ntrees *= 3
@@ -277,7 +282,9 @@ def run(oc, tier, seed, model_available, escalate):
         tampered = {k: (v[:-1] + b"\x01" if v else v) for k, v in orig.items()}
         deleted = [k for k in orig if k not in fin]
         repaired = {k: v for k, v in fin.items() if k in orig}
-        rc, final = restest_run(orig, tampered, repaired, deleted, d)
+        par_, nrep_ = rng.random() < 0.35, rng.choice([1, 1, 2])
+        rc, final = restest_run(orig, tampered, repaired, deleted, d, parallel=par_, nrepairs=nrep_)
+        oc.count("restest: %s, %d repair stage(s)" % ("--parallel" if par_ else "chained", nrep_))
         oc.oracle_cases += 1
         identical = all((k not in final) or final[k] == v for k, v in orig.items())
         all_present_identical = all(final.get(k) == v for k, v in orig.items())
